@@ -16,7 +16,23 @@ class IdSource:
         return b"%010d" % self.n
 
 
+DSMR_LINES = (
+    "1-3:0.2.8({v2})", "0-0:1.0.0(2{v2}0102120000W)", "0-0:96.1.1(4B384547303034303436333935353037)", "1-0:1.8.1(00{v6}.{v3}*kWh)", "1-0:2.8.2(000000.000*kWh)",
+    "0-0:96.14.0(000{d})", "1-0:1.7.0(0{d}.{v3}*kW)", "0-0:96.7.21(0000{d})", "1-0:99.97.0(2)(0-0:96.7.19)(101208152415W)(0000000240*s)(101208151004W)(0000000301*s)",
+    "1-0:32.32.0(0000{d})", "0-0:96.13.0()", "1-0:32.7.0(2{v2}.{d}*V)", "1-0:31.7.0(0{v2}*A)", "0-1:24.1.0(003)", "0-1:96.1.0(3232323241424344313233343536373839)",
+    "0-1:24.2.1(101209112500W)({v2}785.{v3}*m3)", "1-0:1.6.0*0{d}(0004.{v3}*kW)", "1-0:1.6.0*0{d}(0128)",
+)
+
+
+def dsmr_line(rng) -> bytes:
+    """Lines that real DSMR/ESMR meters send (version line, equipment ids, logs, M-Bus sub-meters, historical values)."""
+    t = rng.choice(DSMR_LINES)
+    return t.format(v2="%02d" % rng.choice((22, 40, 42, 50, 51, rng.randrange(100))), v3="%03d" % rng.randrange(1000), v6="%04d" % rng.randrange(10000), d=rng.randrange(10)).encode()
+
+
 def data_line(rng, ids: IdSource | None = None) -> bytes:
+    if rng.random() < 0.2:
+        return dsmr_line(rng)
     addr, _ = p1_ref.reduced_address(rng)
     r = rng.random()
     if ids is not None and r < 0.5:
